@@ -1,4 +1,5 @@
 """C33 -- SortedSet / OrderedMap / OrderedMapSerializedKey behave as their mathematical models."""
+import os
 import struct
 
 from hypothesis import strategies as st
@@ -11,8 +12,8 @@ LEVEL = "exploration"
 ENGINE = "models"
 TECHNIQUE = "model-based property testing (Hypothesis): operation histories against reference models"
 RULE = ("SortedSet: Hypothesis draws an element domain (ints; tuples; lists = unhashable, totally ordered; strings; nested "
-        "SortedSets = what set<frozen<set<int>>> deserializes to, only partially ordered; dicts = unorderable, equality "
-        "only), an initial content and up to 14 operations (add, remove, pop, clear, update, in, len, indexing, del by "
+        "SortedSets = what set<frozen<set<int>>> deserializes to, comparable but only partially ordered), an initial "
+        "content and up to 14 operations (add, remove, pop, clear, update, in, len, indexing, del by "
         "index, reversed, union/intersection/difference with 1-2 operands, symmetric_difference, | & - ^ and their "
         "reflected and in-place forms, isdisjoint/issubset/issuperset, <= < >= > == !=, copy) whose operands are other "
         "SortedSets, builtin sets (hashable domains) or lists; the model is a Python set of canonical hashable images, "
@@ -25,19 +26,23 @@ RULE = ("SortedSet: Hypothesis draws an element domain (ints; tuples; lists = un
         "a deletion and an overwrite (maps), or unhashable elements/keys.")
 ASSUMPTIONS = ["one element type per SortedSet instance (the statement); mixed-type behaviour is not judged",
                "pop() may return any member (Python set semantics); the model removes what was returned",
-               "for the partially ordered / unorderable element domains only set semantics are judged plus, for nested "
-               "sets, that no later element is strictly smaller than an earlier one",
+               "for the partially ordered element domain (nested sets) set semantics are judged and, for the order, only "
+               "that no later element is strictly smaller (a proper subset) than an earlier one",
                "list operands with duplicates are only given to update/union/intersection/difference/isdisjoint/issubset",
                "equality between two ordered maps with the same pairs in a different order is not judged (OrderedDict and "
                "dict disagree on it)",
                "map keys are restricted to types whose driver encoding is canonical (frozen map keys are built in "
                "ascending key order, as Cassandra sends them)"]
 
+# the quick tier is a few CPU-seconds; forking a worker pool costs more than it saves (and far more on a
+# loaded machine)
+SERIAL = os.environ.get("VERIF_TIER") == "quick"
+
 # ----------------------------------------------------------------------------
 # element domains for SortedSet
 # ----------------------------------------------------------------------------
 
-DOMS = ("int", "tuple", "list", "str", "sset", "dict")
+DOMS = ("int", "tuple", "list", "str", "sset")      # dicts are unorderable: outside "any single comparable type"
 HASHABLE = ("int", "tuple", "str")
 TOTAL = ("int", "tuple", "list", "str")
 
@@ -108,41 +113,44 @@ def s_operand(dom, kinds, dups=True):
     return st.builds(build, st.sampled_from(kinds), s_elems(dom))
 
 
+def _sortedset_strategy(dom):
+    setlike = ["sortedset"] + (["set"] if dom in HASHABLE else [])
+    anyk = setlike + ["list"]
+    e = s_elem(dom)
+    idx = st.integers(-6, 6)
+    ops = [
+        st.builds(lambda x: {"op": "add", "x": x}, e),
+        st.builds(lambda x: {"op": "remove", "x": x}, e),
+        st.just({"op": "pop"}),
+        st.just({"op": "clear"}),
+        st.builds(lambda xs: {"op": "update", "items": xs}, s_elems(dom)),
+        st.builds(lambda x: {"op": "contains", "x": x}, e),
+        st.just({"op": "len"}),
+        st.just({"op": "reversed"}),
+        st.just({"op": "copy"}),
+        st.builds(lambda i: {"op": "getitem", "i": i}, idx),
+        st.builds(lambda i: {"op": "delitem", "i": i}, idx),
+        st.builds(lambda m, o: {"op": m, "others": o}, st.sampled_from(["union", "intersection", "difference"]),
+                  st.lists(s_operand(dom, anyk), min_size=1, max_size=2)),
+        st.builds(lambda o: {"op": "symmetric_difference", "other": o}, s_operand(dom, setlike)),
+        st.builds(lambda m, o: {"op": m, "other": o},
+                  st.sampled_from(["or", "and", "sub", "xor", "ior", "iand", "isub", "ixor"]), s_operand(dom, setlike)),
+        st.builds(lambda m, o: {"op": m, "other": o}, st.sampled_from(["isdisjoint", "issubset"]), s_operand(dom, anyk)),
+        st.builds(lambda m, o: {"op": m, "other": o}, st.sampled_from(["issuperset"]), s_operand(dom, anyk, dups=False)),
+        st.builds(lambda m, o: {"op": m, "other": o}, st.sampled_from(["le", "lt", "ge", "gt", "eq", "ne"]),
+                  s_operand(dom, setlike)),
+    ]
+    if dom in HASHABLE:
+        ops.append(st.builds(lambda m, o: {"op": m, "other": o}, st.sampled_from(["ror", "rand", "rsub", "rxor", "req"]),
+                             s_operand(dom, ["set"])))
+    return st.builds(lambda init, ops_: {"dom": dom, "init": init, "ops": ops_}, s_elems(dom),
+                     st.lists(st.one_of(ops), max_size=14))
+
+
 def s_sortedset_case():
-    @st.composite
-    def build(draw):
-        dom = draw(st.sampled_from(DOMS))
-        setlike = ["sortedset"] + (["set"] if dom in HASHABLE else [])
-        anyk = setlike + ["list"]
-        e = s_elem(dom)
-        idx = st.integers(-6, 6)
-        ops = [
-            st.builds(lambda x: {"op": "add", "x": x}, e),
-            st.builds(lambda x: {"op": "remove", "x": x}, e),
-            st.just({"op": "pop"}),
-            st.just({"op": "clear"}),
-            st.builds(lambda xs: {"op": "update", "items": xs}, s_elems(dom)),
-            st.builds(lambda x: {"op": "contains", "x": x}, e),
-            st.just({"op": "len"}),
-            st.just({"op": "reversed"}),
-            st.just({"op": "copy"}),
-            st.builds(lambda i: {"op": "getitem", "i": i}, idx),
-            st.builds(lambda i: {"op": "delitem", "i": i}, idx),
-            st.builds(lambda m, o: {"op": m, "others": o}, st.sampled_from(["union", "intersection", "difference"]),
-                      st.lists(s_operand(dom, anyk), min_size=1, max_size=2)),
-            st.builds(lambda o: {"op": "symmetric_difference", "other": o}, s_operand(dom, setlike)),
-            st.builds(lambda m, o: {"op": m, "other": o},
-                      st.sampled_from(["or", "and", "sub", "xor", "ior", "iand", "isub", "ixor"]), s_operand(dom, setlike)),
-            st.builds(lambda m, o: {"op": m, "other": o}, st.sampled_from(["isdisjoint", "issubset"]), s_operand(dom, anyk)),
-            st.builds(lambda m, o: {"op": m, "other": o}, st.sampled_from(["issuperset"]), s_operand(dom, anyk, dups=False)),
-            st.builds(lambda m, o: {"op": m, "other": o}, st.sampled_from(["le", "lt", "ge", "gt", "eq", "ne"]),
-                      s_operand(dom, setlike)),
-        ]
-        if dom in HASHABLE:
-            ops.append(st.builds(lambda m, o: {"op": m, "other": o}, st.sampled_from(["ror", "rand", "rsub", "rxor", "req"]),
-                                 s_operand(dom, ["set"])))
-        return {"dom": dom, "init": draw(s_elems(dom)), "ops": draw(st.lists(st.one_of(ops), max_size=14))}
-    return build()
+    # one strategy object per domain, built once: rebuilding strategies inside every draw costs far more
+    # than running the case
+    return st.one_of([_sortedset_strategy(d) for d in DOMS])
 
 
 _REMOVALS = ("remove", "pop", "clear", "delitem", "isub", "iand", "ixor")
@@ -576,31 +584,29 @@ def _dedup_pairs(kt, pairs):
     return out
 
 
+def _map_strategy(variant, kt):
+    k = s_key(kt)
+    v = st.one_of(st.none(), st.integers(0, 3))
+    pairs = st.lists(st.tuples(k, v).map(list), max_size=5)
+    init = pairs.map(lambda p: _dedup_pairs(kt, p)) if variant == "serialized" else pairs
+    ops = [
+        st.builds(lambda a, b: {"op": "set", "k": a, "v": b}, k, v),
+        st.builds(lambda a: {"op": "del", "k": a}, k),
+        st.builds(lambda a: {"op": "get", "k": a}, k),
+        st.builds(lambda a: {"op": "getd", "k": a}, k),
+        st.builds(lambda a: {"op": "contains", "k": a}, k),
+        st.just({"op": "popitem"}),
+        st.just({"op": "len"}),
+        st.builds(lambda kind, p: {"op": "eq", "kind": kind, "pairs": p},
+                  st.sampled_from(["same", "omap", "dict"] if kt in K_HASHABLE else ["same", "omap"]),
+                  pairs.map(lambda p: _dedup_pairs(kt, p))),
+    ]
+    return st.builds(lambda proto, i, o: {"variant": variant, "ktype": kt, "proto": proto, "init": i, "ops": o},
+                     st.sampled_from([3, 4, 5]), init, st.lists(st.one_of(ops), max_size=12))
+
+
 def s_map_case():
-    @st.composite
-    def build(draw):
-        variant = draw(st.sampled_from(["serialized", "serialized", "pickle"]))
-        kt = draw(st.sampled_from(KTYPES))
-        k = s_key(kt)
-        v = st.one_of(st.none(), st.integers(0, 3))
-        pairs = st.lists(st.tuples(k, v).map(list), max_size=5)
-        init = _dedup_pairs(kt, draw(pairs)) if variant == "serialized" else draw(pairs)
-        ops = [
-            st.builds(lambda a, b: {"op": "set", "k": a, "v": b}, k, v),
-            st.builds(lambda a: {"op": "del", "k": a}, k),
-            st.builds(lambda a: {"op": "get", "k": a}, k),
-            st.builds(lambda a: {"op": "getd", "k": a}, k),
-            st.builds(lambda a: {"op": "contains", "k": a}, k),
-            st.just({"op": "popitem"}),
-            st.just({"op": "len"}),
-            st.builds(lambda kind, p: {"op": "eq", "kind": kind, "pairs": p},
-                      st.sampled_from(["same", "omap", "dict"] if kt in K_HASHABLE else ["same", "omap"]),
-                      pairs.map(lambda p: _dedup_pairs(kt, p))),
-        ]
-        proto = draw(st.sampled_from([3, 4, 5]))
-        return {"variant": variant, "ktype": kt, "proto": proto, "init": init,
-                "ops": draw(st.lists(st.one_of(ops), max_size=12))}
-    return build()
+    return st.one_of([_map_strategy(v, kt) for v in ("serialized", "serialized", "pickle") for kt in KTYPES])
 
 
 class _MapModel(object):
@@ -776,6 +782,6 @@ def interpret_map(case, ctx):
 
 def parts(tier):
     return [
-        hyp_part("sortedset", s_sortedset_case, interpret_sortedset, tier, quick=1500, thorough=10000, quick_shards=2),
-        hyp_part("map", s_map_case, interpret_map, tier, quick=1200, thorough=8000, quick_shards=2, thorough_shards=8),
+        hyp_part("sortedset", s_sortedset_case, interpret_sortedset, tier, quick=1000, thorough=8000, quick_shards=2),
+        hyp_part("map", s_map_case, interpret_map, tier, quick=800, thorough=6000, quick_shards=2, thorough_shards=8),
     ]
